@@ -179,6 +179,30 @@ class Evaluator:
         if any(isinstance(a, ast.Starred) for a in e.args) or any(k.arg is None for k in e.keywords):
             raise Unknown('starred call')
         f = e.func
+        if (isinstance(f, ast.Name) and f.id == 'reduce' and f.id not in self.env) or (isinstance(f, ast.Attribute) and f.attr == 'reduce' and isinstance(f.value, ast.Name) and f.value.id == 'functools'):
+            # left fold with a two-parameter lambda of the tabulated fragment (or operator.or_/and_ on booleans)
+            if e.keywords or len(e.args) not in (2, 3):
+                raise Unknown('reduce')
+            fn, seq = e.args[0], self._iter(self.ev(e.args[1]))
+            if len(e.args) == 3:
+                acc = self.ev(e.args[2])
+            elif seq:
+                acc, seq = seq[0], seq[1:]
+            else:
+                raise Unknown('reduce of an empty sequence without an initial value')
+            if not (isinstance(fn, ast.Lambda) and len(fn.args.args) == 2 and not (fn.args.vararg or fn.args.kwarg or fn.args.defaults or fn.args.kwonlyargs)):
+                raise Unknown('reduce with something other than a two-parameter lambda')
+            a_, b_ = fn.args.args[0].arg, fn.args.args[1].arg
+            for item in seq:
+                saved = {k_: self.env[k_] for k_ in (a_, b_) if k_ in self.env}
+                self.env[a_], self.env[b_] = acc, item
+                try:
+                    acc = self.ev(fn.body)
+                finally:
+                    for k_ in (a_, b_):
+                        self.env.pop(k_, None)
+                    self.env.update(saved)
+            return acc
         if isinstance(f, ast.Name) and f.id not in self.env:
             args = [self.ev(a) for a in e.args]
             if e.keywords:
